@@ -42,46 +42,63 @@ structure Sweep where
   coldP : Int
   deriving Repr
 
-/-- The `for _ in range(i, pinch_loc, sgn)` loop. -/
+/-- Insert the temperature at which the pocket that starts at `i0` closes between rows `e` and
+    `e + sgn` (unless the pocket runs to the pinch). -/
+def closeInsert (cfg : TblCfg) (tol : Rat) (cH : Nat) (above : Bool) (rows : List Row) (i0 e pinch : Int) :
+    Except Err (List Row × Nat) :=
+  if e ≠ pinch then do
+    let sgn : Int := if above then 1 else -1
+    let h0 ← cellAt rows cH i0
+    let he ← cellAt rows cH e
+    let he1 ← cellAt rows cH (e + sgn)
+    let te ← cellAt rows cfg.tI e
+    let te1 ← cellAt rows cfg.tI (e + sgn)
+    let t0 ← linearInterpolation h0 he he1 te te1
+    insertTemps cfg tol rows [t0]
+  else pure (rows, 0)
+
+/-- Rows after handling a pocket that starts at `i0` and exits at `e`: insert the closing
+    temperature, then flatten. Returns the rows and the number of rows added. -/
+def pocketRows (cfg : TblCfg) (tol : Rat) (cH cNP : Nat) (above : Bool) (rows : List Row) (i0 e pinch : Int) :
+    Except Err (List Row × Nat) := do
+  let r ← closeInsert cfg tol cH above rows i0 e pinch
+  let i0' : Int := if above then i0 else i0 + (r.2 : Int)
+  let h0 ← cellAt r.1 cH i0'
+  pure (if above then flatten r.1 cNP (i0' + 1) e h0 else flatten r.1 cNP (e + 1) (i0' - 1) h0, r.2)
+
+/-- The pocket branch of one iteration. -/
+def pocketStep (cfg : TblCfg) (tol : Rat) (cH cNP : Nat) (above : Bool) (st : Sweep) (i pinch : Int) :
+    Except Err (Sweep × Int × Int) := do
+  let e ← pocketExit tol st.rows cH i pinch above
+  let r ← pocketRows cfg tol cH cNP above st.rows i e pinch
+  let nI : Int := r.2
+  pure (if above then { rows := r.1, hotP := st.hotP + nI, coldP := st.coldP + nI }
+        else { rows := r.1, hotP := st.hotP, coldP := st.coldP },
+        e + nI * (if above then 1 else -1), if above then pinch + nI else pinch)
+
+/-- One iteration of the sweep: new state, new `i`, new (advanced) `pinch_loc`. -/
+def sweepStep (cfg : TblCfg) (tol : Rat) (cH cNP : Nat) (above : Bool) (st : Sweep) (i pinch : Int) :
+    Except Err (Sweep × Int × Int) := do
+  let hi ← cellAt st.rows cH i
+  let hn ← cellAt st.rows cH (i + (if above then 1 else -1))
+  if hi < hn - tol then pocketStep cfg tol cH cNP above st i pinch
+  else pure (st, i + (if above then 1 else -1), pinch)
+
+/-- The `for _ in range(i, pinch_loc, sgn)` loop (fuel = the Python loop bound). -/
 def sweepLoop (cfg : TblCfg) (tol : Rat) (cH cNP : Nat) (above : Bool) :
     Nat → Sweep → Int → Int → Except Err Sweep
   | 0, st, _, _ => .ok st
   | fuel + 1, st, i, pinch => do
-    let sgn : Int := if above then 1 else -1
-    let hi ← cellAt st.rows cH i
-    let hn ← cellAt st.rows cH (i + sgn)
-    if hi < hn - tol then
-      let i0 := i
-      let e ← pocketExit tol st.rows cH i0 pinch above
-      let (rows1, n) ←
-        if e ≠ pinch then do
-          let h0 ← cellAt st.rows cH i0
-          let he ← cellAt st.rows cH e
-          let he1 ← cellAt st.rows cH (e + sgn)
-          let te ← cellAt st.rows cfg.tI e
-          let te1 ← cellAt st.rows cfg.tI (e + sgn)
-          let t0 ← linearInterpolation h0 he he1 te te1
-          insertTemps cfg tol st.rows [t0]
-        else pure (st.rows, 0)
-      let nI : Int := n
-      let (hotP, coldP, pinch', i0') :=
-        if n > 0 then (if above then (st.hotP + nI, st.coldP + nI, pinch + nI, i0) else (st.hotP, st.coldP, pinch, i0 + nI))
-        else (st.hotP, st.coldP, pinch, i0)
-      let h0 ← cellAt rows1 cH i0'
-      let rows2 := if above then flatten rows1 cNP (i0' + 1) e h0 else flatten rows1 cNP (e + 1) (i0' - 1) h0
-      let i' := e + nI * sgn
-      let st' : Sweep := { rows := rows2, hotP := hotP, coldP := coldP }
-      if (pinch' - i') * sgn ≤ 0 then .ok st' else sweepLoop cfg tol cH cNP above fuel st' i' pinch'
-    else
-      let i' := i + sgn
-      if (pinch - i') * sgn ≤ 0 then .ok st else sweepLoop cfg tol cH cNP above fuel st i' pinch
+    let r ← sweepStep cfg tol cH cNP above st i pinch
+    if (r.2.2 - r.2.1) * (if above then 1 else -1) ≤ 0 then .ok r.1
+    else sweepLoop cfg tol cH cNP above fuel r.1 r.2.1 r.2.2
 
 /-- `_remove_pockets_on_one_side_of_the_pinch`. -/
 def removePocketsSide (cfg : TblCfg) (tol : Rat) (cH cNP : Nat) (above : Bool) (st : Sweep) : Except Err Sweep := do
   let i : Int := if above then 0 else (st.rows.length : Int) - 1
   let pinch := if above then st.hotP else st.coldP
   let hi ← cellAt st.rows cH i
-  if hi < tol then .ok st
+  if hi < tol then pure st
   else sweepLoop cfg tol cH cNP above (if above then pinch - i else i - pinch).toNat st i pinch
 
 /-- `get_GCC_without_pockets`. -/
@@ -91,8 +108,7 @@ def gccWithoutPockets (cfg : TblCfg) (tol : Rat) (cH cNP : Nat) (rows : List Row
   let p := pinchIdx tol hs
   if !p.valid then .ok rows0
   else
-    let rows1 := (rows0.zipIdx).map fun (r, k) =>
-      if p.rowH + 1 ≤ (k : Int) ∧ (k : Int) < p.rowC then r.put cNP (some 0) else r
+    let rows1 := flatten rows0 cNP (p.rowH + 1) (p.rowC - 1) 0
     let s1 ← removePocketsSide cfg tol cH cNP true { rows := rows1, hotP := p.rowH, coldP := p.rowC }
     let s2 ← removePocketsSide cfg tol cH cNP false s1
     .ok s2.rows
